@@ -276,6 +276,12 @@ def _mutate(v):
         if all(isinstance(x, int) and not isinstance(x, bool) for x in v):
             return [(v[0] + 1) % 256] + v[1:]
         return v[:-1]
+    if isinstance(v, dict):
+        # corrupt the first entry (in key order) that can be corrupted
+        for k in sorted(v):
+            m = _mutate(v[k])
+            if m != v[k]:
+                return dict(v, **{k: m})
     return v
 
 
